@@ -11,7 +11,8 @@
 //	    parked (the test goroutine itself is the publisher);
 //	(b) a panicking consumer is closed and leaves the consumer count;
 //	(c) bound: after every publish the stalled consumer's backlog is at most
-//	    1000 + G (+1 packet in flight);
+//	    1000 + G (+1 packet in flight) - as the queue length, and as measured at
+//	    the consumer (accepted for it so far minus given to it so far);
 //	(d) alignment: what the stalled consumer finally received is the log minus
 //	    runs that each start at a key-frame start packet and end just before a
 //	    key-frame start packet.
@@ -19,6 +20,7 @@ package c04
 
 import (
 	"fmt"
+	"sort"
 	"testing"
 	"time"
 
@@ -216,6 +218,10 @@ type result struct {
 	Gaps     [][2]int `json:"dropped_runs"`
 	MaxBack  int      `json:"max_backlog"`
 	BackAt   int      `json:"max_backlog_after_packet"`
+	// the backlog measured at the consumer: accepted for it so far (= what it is finally
+	// given) minus what it had been given at that moment
+	MaxOwed int `json:"max_accepted_not_yet_given,omitempty"`
+	OwedAt  int `json:"max_accepted_not_yet_given_after_packet,omitempty"`
 }
 
 func TestStallIsolationAndGopAlignedDrops(t *testing.T) {
@@ -247,6 +253,7 @@ func TestStallIsolationAndGopAlignedDrops(t *testing.T) {
 		parked := false
 		resumed := false
 		resumeUntil := 0
+		var given [][2]int // while parked: [after packet i, packs the consumer has been given so far]
 		for i, p := range pl.pubs {
 			if si < len(pl.Stalls) && !parked && i == pl.Stalls[si][0] {
 				// park the consumer: the gate is armed once it has drained what it had, so the
@@ -271,6 +278,7 @@ func TestStallIsolationAndGopAlignedDrops(t *testing.T) {
 				}
 			}
 			if parked {
+				given = append(given, [2]int{i, stalled.Len()})
 				if q := media.VerifQueueLen(s, scid); q > res.MaxBack {
 					res.MaxBack, res.BackAt = q, i
 				}
@@ -355,6 +363,18 @@ func TestStallIsolationAndGopAlignedDrops(t *testing.T) {
 			if !pl.pubs[prev+1].KeyStart {
 				evid.Violation(t, "drop-start", res, "the tail %d.. was dropped; dropping began at packet %d (%s), which does not start a key frame", prev+1, prev+1, pl.pubs[prev+1].Desc)
 			}
+		}
+		// (c) at the consumer: whatever was accepted for it is what it finally received, so
+		// "accepted up to packet i" minus "given when packet i had been published" is its
+		// backlog wherever those packs were held on the way (queue, delivery goroutine)
+		for _, g := range given {
+			acc := sort.Search(len(sg), func(k int) bool { return idx[sg[k]] > g[0] })
+			if owed := acc - g[1]; owed > res.MaxOwed {
+				res.MaxOwed, res.OwedAt = owed, g[0]
+			}
+		}
+		if res.MaxOwed > limit+pl.MaxG+2 {
+			evid.Violation(t, "backlog-at-consumer", res, "after packet %d, %d packets had been accepted for the stalled consumer and not yet given to it > %d (limit) + %d (key spacing) + 2 (one in its hands, one in flight)", res.OwedAt, res.MaxOwed, limit, pl.MaxG)
 		}
 		// a stall that stays under the limit must not lose anything
 		long := false
